@@ -197,6 +197,17 @@ def known_findings(pid):
     return out
 
 
+def all_known_findings():
+    out = []
+    if os.path.exists(KNOWN):
+        for line in open(KNOWN):
+            if line.strip().startswith('finding:'):
+                m = re.search(r'obligation=(\S+)', line)
+                if m:
+                    out.append(m.group(1))
+    return out
+
+
 def replay_only_verus(replay_only):
     return replay_only is not None and not str(replay_only).startswith('kani::')
 
@@ -230,6 +241,19 @@ def check_property(pid, tier, seed, replay_only=None):
         for f in concurrent.futures.as_completed(futs):
             kind, u = futs[f]
             (runs if kind == 'main' else probes)[u] = f.result()
+
+    # a function that exhausts the solver budget is re-tried once with six times the budget before it is called undecided
+    # (a changed body can make the same proof search much longer; the answer, either way, is then a definite one)
+    rlimit_retries = []
+    for u in units:
+        ur = runs.get(u)
+        if ur is None or ur.gen_error or ur.res.fatal:
+            continue
+        if any(RLIMIT_PAT.search(f['message']) for f in failures_of(ur)):
+            ur2 = run_unit(u, specs, outdir, False, (rl or 10) * 6, 8)
+            rlimit_retries.append(u)
+            if not ur2.gen_error and not ur2.res.fatal:
+                runs[u] = ur2
 
     functions, obligations, discharged = [], 0, 0
     failures, trusted, rules_applied, samples = [], [], {}, []
@@ -445,6 +469,7 @@ def check_property(pid, tier, seed, replay_only=None):
         'solver_time_ms': solver_ms, 'backend': 'verus %s (z3)' % verus_version,
         'samples': samples[:8] or [{'note': 'no obligations generated'}],
         'stability_rerun': stability,
+        'rlimit_retried_units': rlimit_retries,
         'kani': kani_results,
         'bounded': [k for k in kani_results if k['kind'] == 'bounded'],
         'failed_obligations': [{k: f[k] for k in ('obligation', 'function', 'message', 'clause', 'src')} for f in failures][:20],
@@ -493,7 +518,14 @@ def rebaseline():
             print('unit %s: NOT baselined: %s' % (u, ur.gen_error or ur.res.fatal[:400]))
             bad += 1
             continue
-        fl = failures_of(ur)
+        fl_all = failures_of(ur)
+        # a failure listed as a known finding (known_findings.txt, any property) does not take its function out of the
+        # baseline: every OTHER obligation of that function stays a checked one
+        all_kf = all_known_findings()
+        fl = [f for f in fl_all if not any(f['obligation'].startswith(k) for k in all_kf)]
+        for f in fl_all:
+            if f not in fl:
+                print('unit %s: %s fails a recorded known finding (%s); the function stays in the baseline' % (u, f['function'], f['obligation']))
         failed = set(f['function'] for f in fl)
         for f in fl:
             print('unit %s: %s fails (%s) -> not in baseline' % (u, f['function'], f['message']))
